@@ -96,10 +96,11 @@ type World struct {
 	PlanIDs []uuid.UUID
 	Plans   []*workflow.Plan // the objects handed to Submit (the engine does not use them after Create... it does not; Start re-reads)
 
-	apiGoids   map[uint64]string
-	driverGoid uint64             // the driver (bubble root) goroutine never parks: its storage calls are setup/boot work
-	apiCur     map[string]APICall // the call each API thread is currently inside
-	LastThread string
+	apiGoids       map[uint64]string
+	driverGoid     uint64             // the driver (bubble root) goroutine never parks: its storage calls are setup/boot work
+	apiCur         map[string]APICall // the call each API thread is currently inside
+	LastThread     string
+	lastReleaseSeq int // gateSeq at the last release: gates with a larger seq arrived after it
 
 	Writes []WriteRec // durable write log (all generations)
 
@@ -228,6 +229,7 @@ func (w *World) release(g *Gate) {
 		}
 	}
 	w.LastThread = g.Thread
+	w.lastReleaseSeq = w.gateSeq
 	w.mu.Unlock()
 	close(g.ch)
 }
